@@ -281,15 +281,16 @@ bool FilePersister::put(const unsigned seqnum, const f8String& what)
 		glout_error << "Error: could not seek to end for seqnum persitence: " << _dbFname;
 		return false;
 	}
+	// data first, index record last: an interrupted put leaves no index record pointing at missing data
+	if (write (_fod, what.data(), static_cast<unsigned>(what.size())) != static_cast<ssize_t>(what.size()))
+	{
+		glout_error << "Error: could not write record for seqnum " << seqnum << " to: " << _dbFname;
+		return false;
+	}
 	IPrec iprec(seqnum, offset, static_cast<unsigned>(what.size()));
 	if (write (_iod, static_cast<void *>(&iprec), sizeof(IPrec)) != sizeof(IPrec))
 	{
 		glout_error << "Error: could not write index record for seqnum " << seqnum << " to: " << _dbIname;
-		return false;
-	}
-	if (write (_fod, what.data(), static_cast<unsigned>(what.size())) != static_cast<ssize_t>(what.size()))
-	{
-		glout_error << "Error: could not write record for seqnum " << seqnum << " to: " << _dbFname;
 		return false;
 	}
 
